@@ -11,7 +11,8 @@ const char* RULE =
     "classes node / node +-1 ulp / midpoint / interior / first / last / just below / far below / just above / far above / +-inf; queries "
     "alternate between the two solvers of different nsun. Oracle: GetExpectationValue vs Tr(exp(-iH0 tau) rho exp(iH0 tau) O) in the model; "
     "GetIntermediateState / GetExpectationValueD (4 overloads) vs the convex combination of the bracketing nodes found by the harness' own scan "
-    "with H0 evaluated at x; node-indexed form at nodes; averaging overloads with scale 1e300 equal the plain ones and flag nothing; every x "
+    "with H0 evaluated at x; node-indexed form at nodes; averaging overloads with scale 1e300 equal the plain ones and flag nothing, with a "
+    "reachable scale they equal the trace with the over-threshold pairs removed and flag exactly those pairs; every x "
     "outside [x_first,x_last] raises. Non-trivial: tau != 0, H0 non-degenerate at x, state and operator both with off-diagonal parts, x strictly "
     "inside an interval (interpolation) or strictly outside (rejection); distinct by digest of consumed bytes.";
 void harness_init() { quiet_gsl(); }
@@ -183,6 +184,35 @@ void run_case(ByteSource& s, CaseInfo& ci) {
       CHECK(err <= tol + TINY, fmt("C05|%s|not-interpolated-trace", en[a]), "lib=%.17g model=%.17Lg err=%.3Lg tol=%.3Lg (i=%u f2=%.17Lg) :: %s", es[a], want, err, tol, i0, f2, ctx.c_str());
     }
     CHECK(!flagged3 && !flagged4, "C05|GetExpectationValueD-avg|unreachable-scale-flagged", "%s", ctx.c_str());
+    // reachable averaging scale: pairs whose phase |w tau| exceeds it are removed from the evolved operator and flagged
+    if (s.flag() && tau != 0) {
+      std::vector<double> h0v = hx; h0v[0] = 0; Mat MHx = toM(h0v, d);
+      std::vector<ld> phases; for (int j = 0; j < d; j++) for (int m = j + 1; m < d; m++) phases.push_back(fabsl((MHx.a[j][j].real() - MHx.a[m][m].real()) * tau));
+      ld pick = phases[s.choose((unsigned)phases.size())];
+      double scale = (double)(pick * (0.5 + s.unif01())) + (s.flag() ? 0.0 : 0.1);
+      ld slack = 64 * EPS * fabsl(tau) * hdiag + 1e-300L;
+      bool zone = false; int nfilt = 0;
+      Mat RS(d);  // rho_S with the filtered pairs removed
+      for (int j = 0; j < d; j++) for (int m = 0; m < d; m++) {
+        ld w = (MHx.a[j][j].real() - MHx.a[m][m].real()) * tau;
+        if (j != m && fabsl(fabsl(w) - fabs(scale)) <= slack) zone = true;
+        bool keep = j == m || fabsl(w) <= fabs(scale);
+        if (!keep && j < m) nfilt++;
+        RS.a[j][m] = keep ? MR.a[j][m] * cld(cosl(-w), sinl(-w)) : cld(0, 0);
+      }
+      if (!zone) {
+        ld wantf = trace(RS * MO).real();
+        for (size_t a = 0; a < avr.size(); a++) avr[a] = (a & 1);
+        double f1v = S.GetExpectationValueD(O, ir, xi, scale, avr);
+        int nfl = 0; for (bool f : avr) nfl += f ? 1 : 0;
+        CHECK(fabsl((ld)f1v - wantf) <= tol + TINY, "C05|GetExpectationValueD-avg|reachable-scale-wrong", "scale=%.17g lib=%.17g model=%.17Lg tol=%.3Lg :: %s", scale, f1v, wantf, tol, ctx.c_str());
+        CHECK(nfl == nfilt, "C05|GetExpectationValueD-avg|wrong-number-of-flags", "scale=%.17g flags=%d filtered pairs=%d :: %s", scale, nfl, nfilt, ctx.c_str());
+        for (size_t a = 0; a < avr.size(); a++) avr[a] = !(a & 1);
+        double f2v = S.GetExpectationValueD(O, ir, xi, ubuf, scale, avr);
+        CHECK(fabsl((ld)f2v - wantf) <= tol + TINY, "C05|GetExpectationValueD-buf-avg|reachable-scale-wrong", "scale=%.17g lib=%.17g model=%.17Lg :: %s", scale, f2v, wantf, ctx.c_str());
+        ci.label(nfilt ? "avg-scale-filters" : "avg-scale-keeps-all");
+      }
+    }
     CHECK(comps(O) == o, "C05|operator-modified", "%s", ctx.c_str());
     // node-indexed forms
     bool at_node = false; unsigned node = 0;
